@@ -1,11 +1,11 @@
 (* Executable models of the HTTP request DECODERS (what the code does, not what it should do):
-     encoding/json into the request structs  (internal/api/bulking/elements.go, internal/api/v1/controllers_transactions_create.go)
+     encoding/ajson into the request structs  (internal/api/bulking/elements.go, internal/api/v1/controllers_transactions_create.go)
      bulking.TransactionRequest.ToCore, Postings.Validate (internal/posting.go)
      vm.ScriptV1.ToCore (internal/machine/vm/run.go)     -- JSON-number amounts go through float64 and int()
      v1.Script.ToCore                                     -- panics on a variable that is neither an object nor a string
      bulking.BulkElement.UnmarshalJSON / UnmarshalBulkElementPayload, metadata.Metadata
    and of the amount codecs at the storage boundary (big.Int text, Volumes.Value/Scan through PostgreSQL's composite I/O).
-   Every decoder is a total function  json -> Ok request | ClientError kind | Panic.
+   Every decoder is a total function  ajson -> Ok request | ClientError kind | Panic.
    Not modelled (exercised by the HTTP sweep): JSON lexing, duplicate / case-variant object keys, chi routing, middlewares,
    go-libs helpers, TxToScriptData (the postings of an accepted request are kept as postings). *)
 From Coq Require Import List ZArith String Ascii Bool.
@@ -14,7 +14,7 @@ Import ListNotations.
 Open Scope string_scope.
 Open Scope Z_scope.
 
-Inductive cerr := EDecode (* json.Unmarshal returned an error *) | EValidation (* ToCore / Validate returned an error *).
+Inductive cerr := EDecode (* ajson.Unmarshal returned an error *) | EValidation (* ToCore / Validate returned an error *).
 Inductive decoded (A : Type) := Ok (a : A) | ClientError (e : cerr) | Panic.
 Arguments Ok {A} a. Arguments ClientError {A} e. Arguments Panic {A}.
 
@@ -28,63 +28,63 @@ Fixpoint mapM {A B} (f : A -> decoded B) (l : list A) : decoded (list B) :=
   | x :: r => y <- f x ;; ys <- mapM f r ;; Ok (y :: ys)
   end.
 
-(* ------------------------------------------------------------------ encoding/json per target type.
+(* ------------------------------------------------------------------ encoding/ajson per target type.
    null leaves the zero value for every type; a type mismatch is an UnmarshalTypeError (decoding goes on but
-   the call fails), an Unmarshaler error aborts: either way json.Unmarshal returns an error = EDecode. *)
-Definition dec_string (j : json) : decoded string :=
-  match j with JStr s => Ok s | JNull => Ok "" | _ => ClientError EDecode end.
-Definition dec_bool (j : json) : decoded bool :=
-  match j with JBool b => Ok b | JNull => Ok false | _ => ClientError EDecode end.
-Definition dec_uint64 (j : json) : decoded Z :=
+   the call fails), an Unmarshaler error aborts: either way ajson.Unmarshal returns an error = EDecode. *)
+Definition dec_string (j : ajson) : decoded string :=
+  match j with AJStr s => Ok s | AJNull => Ok "" | _ => ClientError EDecode end.
+Definition dec_bool (j : ajson) : decoded bool :=
+  match j with AJBool b => Ok b | AJNull => Ok false | _ => ClientError EDecode end.
+Definition dec_uint64 (j : ajson) : decoded Z :=
   match j with
-  | JNum m None => if (0 <=? m) && (m <? 2 ^ 64) then Ok m else ClientError EDecode
-  | JNull => Ok 0
+  | AJNum m None => if (0 <=? m) && (m <? 2 ^ 64) then Ok m else ClientError EDecode
+  | AJNull => Ok 0
   | _ => ClientError EDecode
   end.
 (* *big.Int : null -> nil pointer; big.Int.UnmarshalJSON accepts exactly the plain integer literals *)
-Definition dec_bigint_ptr (j : json) : decoded (option Z) :=
-  match j with JNum m None => Ok (Some m) | JNull => Ok None | _ => ClientError EDecode end.
+Definition dec_bigint_ptr (j : ajson) : decoded (option Z) :=
+  match j with AJNum m None => Ok (Some m) | AJNull => Ok None | _ => ClientError EDecode end.
 (* `any`: everything decodes, numbers through strconv.ParseFloat(…, 64) which fails on overflow *)
-Fixpoint any_ok (j : json) : bool :=
+Fixpoint any_ok (j : ajson) : bool :=
   match j with
-  | JNum m e => match f64_of_lit m e with Some _ => true | None => false end
-  | JArr l => forallb any_ok l
-  | JObj l => forallb (fun kv => any_ok (snd kv)) l
+  | AJNum m e => match f64_of_lit m e with Some _ => true | None => false end
+  | AJArr l => forallb any_ok l
+  | AJObj l => forallb (fun kv => any_ok (snd kv)) l
   | _ => true
   end.
-Definition dec_any (j : json) : decoded json := if any_ok j then Ok j else ClientError EDecode.
-Definition dec_raw (j : json) : decoded json := Ok j.        (* json.RawMessage *)
+Definition dec_any (j : ajson) : decoded ajson := if any_ok j then Ok j else ClientError EDecode.
+Definition dec_raw (j : ajson) : decoded ajson := Ok j.        (* ajson.RawMessage *)
 
-Definition dec_map {A} (dec : json -> decoded A) (j : json) : decoded (list (string * A)) :=
+Definition dec_map {A} (dec : ajson -> decoded A) (j : ajson) : decoded (list (string * A)) :=
   match j with
-  | JObj l => kvs <- mapM (fun kv => v <- dec (snd kv) ;; Ok (fst kv, v)) l ;; Ok (mof kvs)
-  | JNull => Ok []
+  | AJObj l => kvs <- mapM (fun kv => v <- dec (snd kv) ;; Ok (fst kv, v)) l ;; Ok (mof kvs)
+  | AJNull => Ok []
   | _ => ClientError EDecode
   end.
-Definition dec_list {A} (dec : json -> decoded A) (j : json) : decoded (list A) :=
-  match j with JArr l => mapM dec l | JNull => Ok [] | _ => ClientError EDecode end.
-Definition fld {A} (k : string) (l : list (string * json)) (zero : A) (dec : json -> decoded A) : decoded A :=
+Definition dec_list {A} (dec : ajson -> decoded A) (j : ajson) : decoded (list A) :=
+  match j with AJArr l => mapM dec l | AJNull => Ok [] | _ => ClientError EDecode end.
+Definition fld {A} (k : string) (l : list (string * ajson)) (zero : A) (dec : ajson -> decoded A) : decoded A :=
   match jfield k l with Some j => dec j | None => Ok zero end.
-Definition dec_struct {A} (zero : A) (body : list (string * json) -> decoded A) (j : json) : decoded A :=
-  match j with JObj l => body l | JNull => Ok zero | _ => ClientError EDecode end.
+Definition dec_struct {A} (zero : A) (body : list (string * ajson) -> decoded A) (j : ajson) : decoded A :=
+  match j with AJObj l => body l | AJNull => Ok zero | _ => ClientError EDecode end.
 
 Definition metadata := list (string * string).
-Definition dec_metadata : json -> decoded metadata := dec_map dec_string.
+Definition dec_metadata : ajson -> decoded metadata := dec_map dec_string.
 
 Section WithTime.
 (* go-libs time.Time.UnmarshalJSON: null -> zero time; a string -> time.Parse(RFC3339Nano) rounded to µs, UTC
    (abstract here: any parser; instantiated by the OCaml glue, compared with the real one by the tie); anything else -> error *)
 Variable parse_time : string -> option Z.
-Definition dec_time (j : json) : decoded (option Z) :=
+Definition dec_time (j : ajson) : decoded (option Z) :=
   match j with
-  | JNull => Ok None
-  | JStr s => match parse_time s with Some t => Ok (Some t) | None => ClientError EDecode end
+  | AJNull => Ok None
+  | AJStr s => match parse_time s with Some t => Ok (Some t) | None => ClientError EDecode end
   | _ => ClientError EDecode
   end.
 
 (* ------------------------------------------------------------------ postings *)
 Record rposting := { rp_src : string; rp_dst : string; rp_amt : option Z; rp_asset : string }.
-Definition dec_posting : json -> decoded rposting :=
+Definition dec_posting : ajson -> decoded rposting :=
   dec_struct {| rp_src := ""; rp_dst := ""; rp_amt := None; rp_asset := "" |} (fun l =>
     s <- fld "source" l "" dec_string ;; d <- fld "destination" l "" dec_string ;;
     a <- fld "amount" l None dec_bigint_ptr ;; c <- fld "asset" l "" dec_string ;;
@@ -148,35 +148,35 @@ Definition sjoin (sep : string) (l : list string) : string :=
   match l with [] => "" | x :: r => fold_left (fun acc y => acc ++ sep ++ y) r x end.
 (* fmt with verb %v ([sverb]=false: fmt.Sprint) or %s ([sverb]=true: a bad verb for non-strings, applied elementwise).
    A nil interface prints as %!s(<nil>) only as the operand itself ([top]); inside a slice or map it is always <nil>. *)
-Fixpoint go_fmt (sverb top : bool) (j : json) : string :=
+Fixpoint go_fmt (sverb top : bool) (j : ajson) : string :=
   match j with
-  | JStr s => s
-  | JNull => if sverb && top then "%!s(<nil>)" else "<nil>"
-  | JBool b => let t := if b then "true" else "false" in if sverb then "%!s(bool=" ++ t ++ ")" else t
-  | JNum m e => let t := match f64_of_lit m e with Some f => fmt_f64 f | None => "?" end in
+  | AJStr s => s
+  | AJNull => if sverb && top then "%!s(<nil>)" else "<nil>"
+  | AJBool b => let t := if b then "true" else "false" in if sverb then "%!s(bool=" ++ t ++ ")" else t
+  | AJNum m e => let t := match f64_of_lit m e with Some f => fmt_f64 f | None => "?" end in
                 if sverb then "%!s(float64=" ++ t ++ ")" else t
-  | JArr l => "[" ++ sjoin " " (map (go_fmt sverb false) l) ++ "]"
-  | JObj l => "map[" ++ sjoin " " (map (fun kv => fst kv ++ ":" ++ snd kv) (mof (map (fun kv => (fst kv, go_fmt sverb false (snd kv))) l))) ++ "]"
+  | AJArr l => "[" ++ sjoin " " (map (go_fmt sverb false) l) ++ "]"
+  | AJObj l => "map[" ++ sjoin " " (map (fun kv => fst kv ++ ":" ++ snd kv) (mof (map (fun kv => (fst kv, go_fmt sverb false (snd kv))) l))) ++ "]"
   end.
 
 (* ------------------------------------------------------------------ vm.ScriptV1 (v2 and bulk) *)
 Record script := { s_plain : string; s_template : string; s_vars : list (string * string) }.
-Record rscript_v1 := { rs_plain : string; rs_template : string; rs_vars : list (string * json) }.
-Definition dec_scriptv1 : json -> decoded rscript_v1 :=
+Record rscript_v1 := { rs_plain : string; rs_template : string; rs_vars : list (string * ajson) }.
+Definition dec_scriptv1 : ajson -> decoded rscript_v1 :=
   dec_struct {| rs_plain := ""; rs_template := ""; rs_vars := [] |} (fun l =>
     p <- fld "plain" l "" dec_string ;; t <- fld "template" l "" dec_string ;;
     v <- fld "vars" l [] (dec_map dec_any) ;;
     Ok {| rs_plain := p; rs_template := t; rs_vars := v |}).
 
 (* one variable of ScriptV1.ToCore; None = the variable is silently dropped *)
-Definition scriptv1_var (v : json) : option string :=
+Definition scriptv1_var (v : ajson) : option string :=
   match v with
-  | JStr s => Some s
-  | JObj m =>
+  | AJStr s => Some s
+  | AJObj m =>
       let asset := match jfield "asset" m with Some a => go_fmt true true a | None => "%!s(<nil>)" end in
       match jfield "amount" m with
-      | Some (JStr a) => Some (asset ++ " " ++ a)
-      | Some (JNum n e) => match f64_of_lit n e with
+      | Some (AJStr a) => Some (asset ++ " " ++ a)
+      | Some (AJNum n e) => match f64_of_lit n e with
                            | Some f => Some (asset ++ " " ++ zstr (f64_to_int f))       (* "%s %d", int(amount) *)
                            | None => None (* unreachable after dec_any *)
                            end
@@ -199,7 +199,7 @@ Record raw_tx := { w_postings : list rposting; w_script : rscript_v1; w_ts : opt
                    w_accmeta : list (string * metadata); w_runtime : string; w_force : bool }.
 Definition zero_rscript := {| rs_plain := ""; rs_template := ""; rs_vars := [] |}.
 Definition zero_raw_tx := {| w_postings := []; w_script := zero_rscript; w_ts := None; w_ref := ""; w_meta := []; w_accmeta := []; w_runtime := ""; w_force := false |}.
-Definition dec_raw_tx : json -> decoded raw_tx :=
+Definition dec_raw_tx : ajson -> decoded raw_tx :=
   dec_struct zero_raw_tx (fun l =>
     ps <- fld "postings" l [] (dec_list dec_posting) ;;
     sc <- fld "script" l zero_rscript dec_scriptv1 ;;
@@ -217,71 +217,71 @@ Definition tx_to_core (w : raw_tx) : decoded tx_request :=
         r_script := match ps with [] => scriptv1_to_core (w_script w) | _ => {| s_plain := ""; s_template := ""; s_vars := [] |} end;
         r_ts := w_ts w; r_ref := w_ref w; r_meta := w_meta w; r_accmeta := w_accmeta w; r_runtime := w_runtime w; r_force := w_force w |}.
 
-(* json.Unmarshal(body, &TransactionRequest) then ToCore: what v2 createTransaction and the bulker do before any store call *)
-Definition decode_v2_tx (j : json) : decoded tx_request := w <- dec_raw_tx j ;; tx_to_core w.
-Definition decode_scriptv1 (j : json) : decoded script := s <- dec_scriptv1 j ;; Ok (scriptv1_to_core s).
+(* ajson.Unmarshal(body, &TransactionRequest) then ToCore: what v2 createTransaction and the bulker do before any store call *)
+Definition decode_v2_tx (j : ajson) : decoded tx_request := w <- dec_raw_tx j ;; tx_to_core w.
+Definition decode_scriptv1 (j : ajson) : decoded script := s <- dec_scriptv1 j ;; Ok (scriptv1_to_core s).
 
 (* ------------------------------------------------------------------ bulk elements *)
 Inductive bulk_data :=
 | BCreate (w : raw_tx)
-| BAddMeta (target_type : string) (target_id : json) (md : metadata)
+| BAddMeta (target_type : string) (target_id : ajson) (md : metadata)
 | BRevert (id : Z) (force at_eff : bool) (md : metadata)
-| BDelMeta (target_type : string) (target_id : json) (key : string).
+| BDelMeta (target_type : string) (target_id : ajson) (key : string).
 Record bulk_element := { b_action : string; b_ik : string; b_data : bulk_data }.
 
-Definition dec_bulk_payload (action : string) (data : option json) : decoded bulk_data :=
+Definition dec_bulk_payload (action : string) (data : option ajson) : decoded bulk_data :=
   match data with
-  | None => ClientError EDecode                  (* json.Unmarshal(nil, …): unexpected end of JSON input *)
+  | None => ClientError EDecode                  (* ajson.Unmarshal(nil, …): unexpected end of JSON input *)
   | Some d =>
       if String.eqb action "CREATE_TRANSACTION" then w <- dec_raw_tx d ;; Ok (BCreate w)
       else if String.eqb action "ADD_METADATA" then
-        dec_struct (BAddMeta "" JNull []) (fun l => t <- fld "targetType" l "" dec_string ;; i <- fld "targetId" l JNull dec_raw ;;
+        dec_struct (BAddMeta "" AJNull []) (fun l => t <- fld "targetType" l "" dec_string ;; i <- fld "targetId" l AJNull dec_raw ;;
                                                    m <- fld "metadata" l [] dec_metadata ;; Ok (BAddMeta t i m)) d
       else if String.eqb action "REVERT_TRANSACTION" then
         dec_struct (BRevert 0 false false []) (fun l => i <- fld "id" l 0 dec_uint64 ;; f <- fld "force" l false dec_bool ;;
                                                        a <- fld "atEffectiveDate" l false dec_bool ;; m <- fld "metadata" l [] dec_metadata ;; Ok (BRevert i f a m)) d
       else if String.eqb action "DELETE_METADATA" then
-        dec_struct (BDelMeta "" JNull "") (fun l => t <- fld "targetType" l "" dec_string ;; i <- fld "targetId" l JNull dec_raw ;;
+        dec_struct (BDelMeta "" AJNull "") (fun l => t <- fld "targetType" l "" dec_string ;; i <- fld "targetId" l AJNull dec_raw ;;
                                                    k <- fld "key" l "" dec_string ;; Ok (BDelMeta t i k)) d
-      else ClientError EDecode                   (* json.Unmarshal(data, nil): InvalidUnmarshalError *)
+      else ClientError EDecode                   (* ajson.Unmarshal(data, nil): InvalidUnmarshalError *)
   end.
 
 (* BulkElement.UnmarshalJSON is called for a null element too (pointer-receiver Unmarshaler on an addressable slice
    element): the inner decode of null succeeds, then the empty action has no payload type: error *)
-Definition dec_bulk_element (j : json) : decoded bulk_element :=
+Definition dec_bulk_element (j : ajson) : decoded bulk_element :=
   match j with
-  | JNull => ClientError EDecode
-  | JObj l =>
+  | AJNull => ClientError EDecode
+  | AJObj l =>
       a <- fld "action" l "" dec_string ;; ik <- fld "ik" l "" dec_string ;;
       d <- dec_bulk_payload a (jfield "data" l) ;;
       Ok {| b_action := a; b_ik := ik; b_data := d |}
   | _ => ClientError EDecode
   end.
-Definition decode_bulk (j : json) : decoded (list bulk_element) :=
-  match j with JArr l => mapM dec_bulk_element l | JNull => Ok [] | _ => ClientError EDecode end.
+Definition decode_bulk (j : ajson) : decoded (list bulk_element) :=
+  match j with AJArr l => mapM dec_bulk_element l | AJNull => Ok [] | _ => ClientError EDecode end.
 
 (* ------------------------------------------------------------------ v1 Script.ToCore *)
-Record rscript_raw := { rr_plain : string; rr_template : string; rr_vars : list (string * json) }.
-Definition dec_script_v1api : json -> decoded rscript_raw :=
+Record rscript_raw := { rr_plain : string; rr_template : string; rr_vars : list (string * ajson) }.
+Definition dec_script_v1api : ajson -> decoded rscript_raw :=
   dec_struct {| rr_plain := ""; rr_template := ""; rr_vars := [] |} (fun l =>
     p <- fld "plain" l "" dec_string ;; t <- fld "template" l "" dec_string ;;
     v <- fld "vars" l [] (dec_map dec_raw) ;;
     Ok {| rr_plain := p; rr_template := t; rr_vars := v |}).
 
-(* json.Unmarshal(raw, &x) where raw may be absent (nil RawMessage: "unexpected end of JSON input") *)
-Definition v1_var (v : json) : decoded string :=
+(* ajson.Unmarshal(raw, &x) where raw may be absent (nil RawMessage: "unexpected end of JSON input") *)
+Definition v1_var (v : ajson) : decoded string :=
   match v with
-  | JStr s => Ok s
-  | JObj m =>                                               (* is a monetary *)
+  | AJStr s => Ok s
+  | AJObj m =>                                               (* is a monetary *)
       a <- match jfield "asset" m with Some j => (match dec_string j with Ok s => Ok s | _ => ClientError EValidation end) | None => ClientError EValidation end ;;
       n <- match jfield "amount" m with
-           | Some (JNum n None) => Ok n
-           | Some JNull => Ok 0
+           | Some (AJNum n None) => Ok n
+           | Some AJNull => Ok 0
            | _ => ClientError EValidation
            end ;;
       Ok (a ++ " " ++ zstr n)
-  | JNull => ClientError EValidation                        (* unmarshals into the map, then m["asset"] is missing *)
-  | _ => Panic                                              (* json.Unmarshal(v, &rawValue) fails: panic(err) *)
+  | AJNull => ClientError EValidation                        (* unmarshals into the map, then m["asset"] is missing *)
+  | _ => Panic                                              (* ajson.Unmarshal(v, &rawValue) fails: panic(err) *)
   end.
 (* Go ranges over the vars MAP (unspecified order) and stops at the first error or panic: with several bad variables
    the outcome depends on the iteration order. The model takes the worst case: Panic if any variable panics. *)
@@ -290,7 +290,7 @@ Definition v1_script_to_core (s : rscript_raw) : decoded script :=
   if existsb (fun kv => is_panic (v1_var (snd kv))) (rr_vars s) then Panic else
   vs <- mapM (fun kv => x <- v1_var (snd kv) ;; Ok (fst kv, x)) (rr_vars s) ;;
   Ok {| s_plain := rr_plain s; s_template := rr_template s; s_vars := vs |}.
-Definition decode_v1_script (j : json) : decoded script := s <- dec_script_v1api j ;; v1_script_to_core s.
+Definition decode_v1_script (j : ajson) : decoded script := s <- dec_script_v1api j ;; v1_script_to_core s.
 
 End WithTime.
 
